@@ -396,6 +396,46 @@ func (h *uhist) insertOracle(r int) {
 	}
 }
 
+// the open-addressing table itself: no duplicates, itemsCount = occupied cells + zero flag, and for every stored
+// hash all cells from its home cell to its position (cyclically) are occupied (otherwise a later insert of the same
+// hash does not find it)
+func (h *uhist) tableOracle(r int) {
+	st := h.regs[r].VerifState()
+	if st.Nil {
+		return
+	}
+	_, _, bits, _ := data_model.VerifChConsts()
+	n := len(st.Buf)
+	seen := map[uint32]bool{}
+	occ := 0
+	ok := n == 1<<st.SizeDegree
+	for i, x := range st.Buf {
+		if x == 0 {
+			continue
+		}
+		occ++
+		if seen[x] {
+			ok = false
+		}
+		seen[x] = true
+		for p := int(x>>uint(bits)) & (n - 1); p != i; p = (p + 1) & (n - 1) {
+			if st.Buf[p] == 0 {
+				ok = false
+				break
+			}
+		}
+	}
+	if st.Zero {
+		occ++
+	}
+	if occ != int(st.Count) {
+		ok = false
+	}
+	if !ok {
+		h.fails = append(h.fails, "table_probing_invariant")
+	}
+}
+
 func (h *uhist) note(r int, x uint32) {
 	if h.shadow[r] == nil {
 		h.shadow[r] = map[uint32]bool{}
@@ -500,6 +540,7 @@ func (h *uhist) apply(o uop) {
 			panic(err)
 		}
 	}
+	h.tableOracle(o.r1)
 	if o.kind != "unm" && o.kind != "reset" && ch.VerifState().Skip > before {
 		h.thinned = true
 	}
@@ -564,6 +605,26 @@ func smallUniqHistory(r *vu.Rng, o *vu.Out, reportKnown bool) {
 		if r.Chance(30) {
 			pool[i] = r.U64()
 		}
+	}
+	if r.Chance(12) {
+		// a collision chain that wraps around the end of the table at the moment it grows: X and Y both live in the
+		// last cell of the 16-cell table (Y spills into cell 0); after growth X (and sometimes Y) belongs to the upper half
+		reg := r.Intn(4)
+		low := func() uint32 { return uint32(r.Intn(1 << 15)) }
+		x := uint32(31+32*r.Intn(1000))<<15 | low()
+		y := uint32(15+16*r.Intn(2000))<<15 | low()
+		vals := []uint64{uint64(x), uint64(y)}
+		for j := 0; j < r.Intn(3); j++ {
+			vals = append(vals, uint64(uint32(15+16*r.Intn(2000))<<15|low()))
+		}
+		h.apply(uop{kind: "hash", r1: reg, vals: vals})
+		fill := make([]uint64, 7+r.Intn(12))
+		for j := range fill {
+			fill[j] = uint64(r.U32() | 1)
+		}
+		h.apply(uop{kind: "hash", r1: reg, vals: fill})
+		h.apply(uop{kind: "hash", r1: reg, vals: vals}) // the same hashes once more
+		h.kinds["uniq/wrap-at-resize"] = true
 	}
 	for i := 0; i < nops; i++ {
 		r1 := r.Intn(4)
